@@ -116,7 +116,7 @@ func (h *Host) Connect(ctx context.Context, pi peer.AddrInfo) error {
 	h.mu.Lock()
 	h.DialLog = append(h.DialLog, pi.ID)
 	h.mu.Unlock()
-	out, cerr := h.S.Park("dial", h.Label+h.Name(pi.ID), ctx, pi.ID)
+	out, cerr := h.S.Park("dial", h.Label+h.Name(pi.ID)+sim.TagOf(ctx), ctx, pi.ID)
 	if cerr != nil {
 		return cerr
 	}
